@@ -2343,6 +2343,21 @@ def write_cache(
         # Still return the interface hash we computed.
         return interface_hash, None
 
+    # Invalidate the old cache entry before any of its files is replaced. The three files
+    # (data, meta, meta_ex) are written one by one, in two phases, possibly by a parallel
+    # worker that publishes the meta long before the meta_ex. A cache entry is only used when
+    # both meta and meta_ex are found, so after this point, and until the caller has written
+    # both of them, a killed run or a failed write leaves an entry that is ignored, never
+    # a new meta next to the error list (or the data file) of a previous version.
+    for stale_file in (meta_file, get_meta_ex_name(meta_file)):
+        try:
+            metastore.remove(stale_file)
+        except FileNotFoundError:
+            pass
+        except OSError:
+            manager.log(f"Error removing stale cache file {stale_file}, skipping cache write")
+            return interface_hash, None
+
     # Write data cache file, if applicable
     # Note that for Bazel we don't record the data file's mtime.
     if old_interface_hash == interface_hash:
